@@ -168,6 +168,7 @@ structure ErrCfg where
   boundedPrint : Bool          -- `vsnprintf( ERROR_string, ERROR_string_end - ERROR_string, … )`
   clampOnTruncation : Bool     -- result larger than the room ⇒ `ERROR_string = ERROR_string_end`
   nextGuard : Bool             -- `ERROR_nexterror` does not step past the end
+  nextWrites : Nat             -- bytes `ERROR_nexterror` itself stores at `ERROR_string` (0: it only steps over the terminator)
   spaceGuard : Option (Nat × Nat)   -- flush+exit when `ERROR_string + a > base + b`
   countGuard : Option Nat           -- flush+exit when `ERROR_with_lines == n`
   deriving Repr
@@ -201,8 +202,11 @@ def errPrint (c : ErrCfg) (u len : Nat) : Option Nat :=
   else
     if c.allocated < u + len + 1 then none else some (u + len)
 
-def errNext (c : ErrCfg) (u : Nat) : Nat :=
-  if c.nextGuard && u == c.span then u else u + 1
+/-- `ERROR_nexterror`; `none` = a store outside the allocated block -/
+def errNext (c : ErrCfg) (u : Nat) : Option Nat :=
+  if c.nextGuard && u == c.span then some u
+  else if c.allocated < u + c.nextWrites then none
+  else some (u + max 1 c.nextWrites)
 
 def spaceHit (c : ErrCfg) (u : Nat) : Bool :=
   match c.spaceGuard with | some (a, b) => decide (b < u + a) | none => false
@@ -222,8 +226,9 @@ def errStep (c : ErrCfg) (s : ErrState) : ErrEv → Outcome ErrState
         match errPrint c u1 m.bodyLen with
         | none => .overflow c.allocated
         | some u2 =>
-          let u3 := errNext c u2
-          if m.fatal || spaceHit c u3 || countHit c idx then .reject else .ok ⟨u3, idx⟩
+          match errNext c u2 with
+          | none => .overflow c.allocated
+          | some u3 => if m.fatal || spaceHit c u3 || countHit c idx then .reject else .ok ⟨u3, idx⟩
 
 def errRun (c : ErrCfg) (s : ErrState) : List ErrEv → Outcome ErrState
   | [] => .ok s
@@ -235,7 +240,7 @@ def errRun (c : ErrCfg) (s : ErrState) : List ErrEv → Outcome ErrState
     | .reject => .reject
 
 def errCfgSafe (c : ErrCfg) : Bool :=
-  c.boundedPrint && c.clampOnTruncation && c.nextGuard && decide (c.span ≤ c.allocated) &&
+  c.boundedPrint && c.clampOnTruncation && c.nextGuard && decide (c.nextWrites = 0) && decide (c.span ≤ c.allocated) &&
   (match c.countGuard with | some n => decide (n + 1 ≤ c.heapSize) && decide (1 ≤ n) | none => false)
 
 /-! ## `ERRORset_warning` -/
